@@ -375,12 +375,15 @@ def _report(spec: Dict[str, Any], tier: str, seed: int, jobs: int, results: List
             print(ln)
     if harness:
         print(f"[{prop}] HARNESS PROBLEM ({len(harness)}): {harness[0][:600]}")
+    if new_violations:
+        # a violation is a counterexample whatever happened in other runs (a tree that makes the tool hang in some
+        # runs and misbehave in others is reported for the misbehaviour)
+        return 1
+    if harness:
         return 2
     if truncated and n_done < max(2, n_tasks // 4):
         print(f"[{prop}] CANNOT DECIDE: wall-clock limit hit after {n_done}/{n_tasks} runs")
         return 2
-    if new_violations:
-        return 1
     if not digests_nontrivial or len(digests_nontrivial) < 2:
         print(f"[{prop}] CANNOT DECIDE: no oracle was evaluated on a non-empty observable")
         return 2
